@@ -238,6 +238,11 @@ func chunkRange(req *http.Request) (start, end int64, _ error) {
 		}
 	}
 
+	if rangeOK && start == 0 && end == 0 && req.ContentLength == 1 {
+		// "0-0" is ambiguous between the empty range and the single byte
+		// at offset zero; the content length tells us which one it is.
+		end = 1
+	}
 	if rangeOK && req.ContentLength >= 0 {
 		rangeLength := end - start
 		if rangeLength != req.ContentLength {
